@@ -187,7 +187,7 @@ def _splits(tier):
                     if tier == 'quick' and n == 3 and depth == 3 and extra:
                         continue
                     out.append({'depth': depth, 'n': n, 'pos': list(pos), 'extra': extra})
-                    if n >= 3 and not extra and (tier != 'quick' or depth <= 2):
+                    if n == 3 and not extra and (tier != 'quick' or depth <= 2):
                         out.append({'depth': depth, 'n': n, 'pos': list(pos), 'extra': extra, 'same': True})
     return out
 
